@@ -38,11 +38,11 @@ ANCHORS = [
 ]
 
 
-async def run_faulted(ctx, s, engine, req, faults, sdl, arg_faults=(), arg_kind="raise"):
+async def run_faulted(ctx, s, engine, req, faults, sdl, arg_faults=(), arg_kind="raise", input_faults=()):
     st = ctx.stats
     w_ref, w_eng = X.make_worlds(s, req, faults)
     for w in (w_ref, w_eng):
-        w.arg_faults, w.arg_fault_kind = set(arg_faults), arg_kind
+        w.arg_faults, w.arg_fault_kind, w.input_faults = set(arg_faults), arg_kind, set(input_faults)
     n_shared = sum(1 for f in faults.values() if f[0] == "raise_shared")
     mech = None
     if n_shared:
@@ -52,6 +52,9 @@ async def run_faulted(ctx, s, engine, req, faults, sdl, arg_faults=(), arg_kind=
     if arg_faults:
         case.update(argument_hook_faults=sorted(arg_faults), argument_hook_fault_kind=arg_kind)
         st.inc("argument_stage_faults:" + arg_kind)
+    if input_faults:
+        case.update(input_field_hook_faults=sorted(input_faults), argument_hook_fault_kind=arg_kind)
+        st.inc("input_field_stage_faults:" + arg_kind)
     try:
         ref = X.run_reference(s, req, w_ref)
     except refexec.RefBug as e:
@@ -92,6 +95,8 @@ async def run_faulted(ctx, s, engine, req, faults, sdl, arg_faults=(), arg_kind=
     for kind, detail in X.check_errors(ctx, req, resp, ref, case):
         # the known finding only explains misattributed paths/locations of the shared instance
         m = mech if kind in ("null-unexplained", "location-outside-field", "error-for-no-failure") else None
+        if kind == "location-outside-field[sdl-default]":
+            m = "input-hook-failure-on-sdl-default-located-in-sdl"
         ctx.violation(kind, "faults=%s %s" % (sorted(faults.items())[:3], detail), case, m)
     st.inc("errors_checked", len(resp.get("errors") or []))
     if ref.errors:
@@ -105,7 +110,8 @@ async def run_faulted(ctx, s, engine, req, faults, sdl, arg_faults=(), arg_kind=
 
 
 async def run_case(ctx, rng, index):
-    so = smodel.GenOpts(p_nonnull=rng.choice([0.15, 0.3, 0.5, 0.7]), p_mutation=0.3, p_gate=rng.choice([0.0, 0.25]))
+    so = smodel.GenOpts(p_nonnull=rng.choice([0.15, 0.3, 0.5, 0.7]), p_mutation=0.3, p_gate=rng.choice([0.0, 0.25, 0.3]),
+                        n_inputs=rng.choice([(0, 2), (1, 3)]), p_args=rng.choice([0.35, 0.6]))
     s, b = await X.new_bundle(rng, so)
     try:
         for _ in range(DOCS_PER_SCHEMA):
@@ -137,6 +143,27 @@ async def run_case(ctx, rng, index):
             # or one derived from the library's error class), alone and together with a resolver fault
             gated = sorted({(f.name, a.name) for t in s.objects() for f in t.fields.values() for a in f.args
                             if any(d[0] == "vtgate" for d in a.directives)})
+            # ... and at the INPUT-FIELD stage (the hook of a directive on an input field definition refuses a value written
+            # as a literal; requests with variables are left out: there the refusal belongs to variable coercion)
+            if not any(s.kind(smodel.named_of(vd[1])) == "INPUT_OBJECT" for vd in req.op.vardefs):
+                gin = sorted({"%s.%s" % (t.name, a.name) for t in s.types.values() if t.kind == "INPUT_OBJECT" for a in t.fields
+                              if any(d[0] == "vtgate" for d in a.directives)})
+                # only fields whose hook this request actually reaches; explicitly written values first, SDL defaults second
+                explicit, dflt = [], []
+                for gi in gin:
+                    wt, _ = X.make_worlds(s, req)
+                    wt.input_faults = {gi}
+                    try:
+                        rt = X.run_reference(s, req, wt)
+                    except refexec.RefBug:
+                        continue
+                    hits = [e_ for e_ in rt.errors if e_.detail == "in:%s" % gi]
+                    if hits:
+                        (dflt if any(e_.sdl_default for e_ in hits) else explicit).append(gi)
+                for gi in rng.sample(explicit, min(len(explicit), 2)) + rng.sample(dflt, min(len(dflt), 1)):
+                    for kind in ("raise", "raise_tf"):
+                        await run_faulted(ctx, s, b.engine, req, {}, b.sdl, (), kind, [gi])
+                    ctx.stats.inc("input_field_faults_on_explicit_values" if gi in explicit else "input_field_faults_on_sdl_defaults")
             for ga in rng.sample(gated, min(len(gated), 3)):
                 for kind in ("raise", "raise_tf"):
                     await run_faulted(ctx, s, b.engine, req, {}, b.sdl, [ga], kind)
@@ -185,3 +212,36 @@ async def run_probes(ctx):
     else:
         ctx.stats.inc("stale-witness:same-exception-instance-raised-twice")
     boot.forget_schema(name)
+    # witness of the second known finding: an input-field hook refusing an SDL default with a plain exception
+    from tartiflette import Directive
+    name2 = boot.fresh_schema_name("c02probe2")
+
+    class Refuse:
+        async def on_post_input_coercion(self, directive_args, next_directive, parent_node, value, c):
+            v = await next_directive(parent_node, value, c)
+            if v is not None:
+                raise ValueError("refused")
+            return v
+    Directive("g", schema_name=name2)(Refuse())
+
+    async def ra(parent, args, c, info):
+        return "x"
+    Resolver("Query.a", schema_name=name2)(ra)
+    sdl2 = 'directive @g on INPUT_FIELD_DEFINITION\n\n\n\ninput I {\n  n: String = "d" @g\n  m: Int\n}\n\ntype Query {\n  a(A: I): String\n}\n'
+    e2 = Engine(sdl2, schema_name=name2)
+    await e2.cook()
+    q2 = "{ a(A: {m: 1}) }"
+    r2 = await e2.execute(q2)
+    ctx.stats.inc("probe_witnesses")
+    locs = [l for x in r2.get("errors") or [] for l in x.get("locations") or []]
+    if any(l.get("line", 1) > 1 for l in locs):
+        ctx.violation("location-outside-field", "witness %s with @g refusing the SDL default of I.n: locations %s lie outside the one-line query" % (q2, locs),
+                      {"sdl": sdl2, "query": q2}, "input-hook-failure-on-sdl-default-located-in-sdl")
+    else:
+        ctx.stats.inc("stale-witness:input-hook-failure-on-sdl-default-located-in-sdl")
+    # control: the same refusal for an explicitly written value is located inside the query
+    r3 = await e2.execute('{ a(A: {n: "x"}) }')
+    locs3 = [l for x in r3.get("errors") or [] for l in x.get("locations") or []]
+    if not r3.get("errors") or any(l.get("line") != 1 for l in locs3):
+        ctx.violation("location-outside-field", "explicit value refused by an input-field hook: %s" % X.jdump(r3)[:300], {"sdl": sdl2, "query": '{ a(A: {n: "x"}) }'})
+    boot.forget_schema(name2)
